@@ -4,6 +4,16 @@ import json, sys
 pid = sys.argv[1]
 d = sys.argv[2] if len(sys.argv) > 2 else "/tmp/seed-" + pid
 p = [json.loads(l) for l in open("/verif/properties.jsonl") if json.loads(l)["id"] == pid][0]
+# second-round prompts steer away from mechanisms earlier sub-agents already used (their own summaries, nothing from the checks)
+import glob, re
+avoid = ""
+if "--avoid" in sys.argv:
+    prev = []
+    for mf in sorted(glob.glob("/verif/seeded/%s-*/meta.json" % pid)):
+        m = json.load(open(mf))
+        prev.append("   - " + ", ".join(m.get("files", [])) + ": " + re.sub(r"\s+", " ", str(m.get("summary", "")))[:220])
+    if prev:
+        avoid = "\nOther people have already explored the following mechanisms; do NOT reuse them, find different code sites and different kinds of slips:\n" + "\n".join(prev) + "\n"
 print(f"""You are working in a scratch git worktree of the Go repository ObolNetwork/charon (Ethereum distributed-validator middleware) at {d}. Work ONLY inside {d}. Never read or modify /repo or /verif (they are off limits), and do not look for any verification harness: your work must be independent.
 
 Environment: no network. Before every go command: `export GOFLAGS=-mod=mod GOPROXY=off` (do NOT set GOTOOLCHAIN or GOSUMDB). `go version` inside the worktree must report go1.26.0. If `git status` shows go.sum/go.mod modified by a go command, restore them (`git checkout go.mod go.sum`).
@@ -19,7 +29,7 @@ Your task: produce TWO different, independent changes (call them seed 1 and seed
  - It must be realistic: the kind of slip a refactor, optimisation, off-by-one, missed case or wrong-variable edit introduces. Keep it small (a few lines).
  - It must need something SPECIFIC to manifest: a particular interleaving or delivery order, a crash or fault at a particular point, a multi-step sequence of operations, an unusual input or configuration, or two cooperating sites that each look fine alone. It must NOT be something ordinary use or the happy path would expose at once (the existing tests must stay green!).
  - Do not edit or delete existing tests. Do not touch test helpers in a way that hides the change.
- - The two seeds should break the property through different mechanisms / code sites.
+ - The two seeds should break the property through different mechanisms / code sites.{avoid}
 For each seed provide a demonstration: a Go test (a new file named zz_seed_demo_test.go placed in the appropriate package directory, internal or external test package as needed) that FAILS with the change applied and PASSES on the original code. The demonstration should exercise the real code (the property's behaviour), be deterministic, and run in under a minute.
 
 Procedure per seed k in {{1,2}} (start each from a clean tree: `git checkout -- . && git clean -fdq -e SEED`):
